@@ -320,7 +320,7 @@ fn process_case(ctx: &Ctx, r: &mut Rng, corpus: &Corpus, t: &mut Tally) {
 }
 
 pub fn run(ctx: &Ctx) -> Report {
-    let (comps, facs) = corrupt::seed_files(Path::new("/repo"));
+    let (comps, facs) = corrupt::seed_files(Path::new(&std::env::var("VERIF_REPO").unwrap_or_else(|_| "/repo".into())));
     let corpus = Corpus { comps, facs };
     let n_in = ctx.cases(60_000, 3_000_000);
     let n_proc = if ctx.cli_debug.is_some() { ctx.cases(2_500, 60_000) } else { 0 };
@@ -387,7 +387,7 @@ pub fn replay(ctx: &Ctx, _monitor: &str, w: &Value) -> Option<Report> {
 
 /// `vmon C16-valgrind`: a small shard of the process corpus under valgrind memcheck (thorough tier)
 pub fn run_valgrind(ctx: &Ctx) -> Report {
-    let (comps, facs) = corrupt::seed_files(Path::new("/repo"));
+    let (comps, facs) = corrupt::seed_files(Path::new(&std::env::var("VERIF_REPO").unwrap_or_else(|_| "/repo".into())));
     let corpus = Corpus { comps, facs };
     let wrapper: Vec<String> = vec!["valgrind".into(), "--quiet".into(), "--error-exitcode=99".into(), "--leak-check=no".into()];
     let n = ctx.cases(64, 300);
